@@ -5,7 +5,7 @@ ID = "C15"
 GEN = ["SortShapes.lean"]   # regenerated from the source on every run (tie 4B): kernels / call shapes / function shapes
 RULE = ("slices of length 0..200 with at most 4 distinct keys (ties) and with distinct keys, elements tagged with their original index so that stability is observable; "
         "lengths above 12 matter because the library switches away from insertion sort there; binary searches for every target present/absent/below/above on ascending slices; "
-        "shuffles judged as permutations, ShuffleRand replayed from the recorded swap stream; non-trivial = length >= 2")
+        "every Func sort also run on two NON-comparable element instantiations (struct with a slice field, interface elements holding maps) and compared with the comparable one; shuffles judged as permutations, ShuffleRand replayed from the recorded swap stream; non-trivial = length >= 2")
 ASSUMPTIONS = ["sort.Sort/Stable/Search and rand.Shuffle by contract (reference implementations proved to contract)"]
 
 
